@@ -322,6 +322,28 @@ def run(facts, rep, tier, ctx):
                 recv = norm(tr.operand(t.args[0]))
                 is_root = any(x[0] == "call" and x[1] == "HashMap::entry" and len(x[2]) == 2 and x[2][1] == ("str", "") for x in walk(recv))
                 (root_ins if is_root else anc_ins).append(blk)
+        # every embedded file is indexed: the iteration over the embedded files is neither filtered nor cut, and the insertion into
+        # the file index depends on nothing ("exactly the files of the embedded folder")
+        shaping, cond = [], []
+        for cbn in inter.code_bodies(new):
+            trn = get_tracer(facts, cbn)
+            for s_ in inter.sites(cbn):
+                ad = s_.short.split("::")[-1]
+                if s_.short.split("::")[0] in ("Iterator", "Itertools", "DoubleEndedIterator") and ad in (
+                        "filter", "filter_map", "skip", "skip_while", "take", "take_while", "step_by", "map_while", "scan", "nth", "last") and \
+                        s_.args and any(x[0] == "call" and isinstance(x[1], str) and "RustEmbed" in x[1] for x in walk(norm(trn.operand(s_.args[0])))):
+                    shaping.append(s_.short)
+                if s_.short in ("HashMap::insert", "BTreeMap::insert") and s_.args and \
+                        any(x[0] == "field" and x[2] == "files" for x in walk(norm(trn.operand(s_.args[0])))) or \
+                        (s_.short in ("HashMap::insert", "BTreeMap::insert") and cbn.id == new.id and
+                         any(x[0] == "call" and isinstance(x[1], str) and sname(x[1]) == "len" for a_ in s_.args[2:3] for x in walk(norm(trn.operand(a_))))):
+                    for g in trn.guards_at(s_.bb):
+                        if g[0] in ("bool", "inteq", "intne"):
+                            cond.append(fmt(g[1])[:50])
+        oki = not shaping and not cond
+        rep.ob("R18.5", new_key, "every embedded file is indexed (iteration not filtered, insertion unconditional)", oki, "" if oki else
+               "the index builder %s: an embedded file is missing from existence, listings, length and bytes" %
+               ("passes T::iter() through " + ", ".join(sorted(set(shaping))) if shaping else "inserts a file only if " + "; ".join(cond)), new.span)
         rep.ob("R18.5", new_key, "ancestors are registered in a loop", len(anc_ins) >= 1, "%d" % len(anc_ins), new.span)
         rep.ob("R18.5", new_key, "top-level names are registered under the root", len(root_ins) == 1, "%d" % len(root_ins), new.span)
         for blk in root_ins:
